@@ -452,6 +452,46 @@ def keys_file(rep):
     return '\n'.join(L)
 
 
+def scrape_gate():
+    """the scraping allowance of find_events: `let maxtime = …; let allow = …;` in the SCRAPE branch, as arithmetic over
+    (allow_scraping, limit, allow_scrape_if_limited_to, allow_scrape_if_max_seconds, since, until, now)"""
+    src = strip_comments_rs(open(os.path.join(REPO, 'pocket-db/src/lib.rs')).read())
+    m = re.search(r'let maxtime = (.*?);\s*let allow = (.*?);\s*if !allow \{\s*return Err\(InnerError::Scraper\.into\(\)\);', src, re.S)
+    if not m:
+        raise Untranslatable('find_events: the scrape gate was not found in its known shape (maxtime, allow, refusal)')
+    def tr(e, maxtime=None):
+        e = re.sub(r'\s+', ' ', e).strip()
+        e = e.replace('filter.until()', 'UNTIL').replace('filter.since()', 'SINCE').replace('filter.limit()', 'LIMIT').replace('Time::now()', 'NOW')
+        e = e.replace('.as_u64()', '')
+        e = re.sub(r'(\w+)\.min\((\w+)\)', r'(min \1 \2)', e)
+        e = re.sub(r'(\w+)\.max\((\w+)\)', r'(max \1 \2)', e)
+        e = re.sub(r'(\w+)\.saturating_sub\((\w+)\)', r'(\1 - \2)', e)
+        if maxtime is not None:
+            e = re.sub(r'\bmaxtime\b', maxtime, e)
+        return e
+    mt = tr(m.group(1))
+    al = tr(m.group(2), mt)
+    parts = [x.strip() for x in al.split('||')]
+    out = []
+    for x in parts:
+        if x == 'allow_scraping':
+            out.append('allow')
+            continue
+        mm = re.fullmatch(r'(.+?) (<=|<) (\w+)', x)
+        if not mm:
+            raise Untranslatable('scrape gate: disjunct %r' % x)
+        out.append('decide (%s %s %s)' % (mm.group(1), '≤' if mm.group(2) == '<=' else '<', mm.group(3)))
+    e = ' || '.join(out)
+    names = {'UNTIL': '«until»', 'SINCE': 'since', 'LIMIT': 'limit', 'NOW': 'now', 'allow_scrape_if_limited_to': 'allowLimit',
+             'allow_scrape_if_max_seconds': 'allowSecs'}
+    for k, v in names.items():
+        e = re.sub(r'\b%s\b' % k, v, e)
+    left = set(re.findall(r'[A-Za-z_][A-Za-z_0-9]*', e.replace('«until»', ''))) - {'allow', 'decide', 'min', 'max', 'since', 'limit', 'now', 'allowLimit', 'allowSecs'}
+    if left:
+        raise Untranslatable('scrape gate: untranslated names %s' % sorted(left))
+    return e, re.sub(r'\s+', ' ', m.group(0))[:300]
+
+
 HEAD = ['/- GENERATED by lib/srcfacts.py from the current working tree of /repo on every check run.  Do not edit: edit the translator.',
         '   What the source says now; the `…_from_source` theorems (Pocket/Lemmas/FromSource*.lean, Pocket/Thm) prove that the model agrees. -/',
         'namespace Pocket.Src', '']
@@ -490,6 +530,15 @@ def generate():
         except Untranslatable as ex:
             E += ['/-- %s could not be translated: %s -/' % (doc, str(ex).replace('-/', '- /')), 'def %s (k : Nat) : Bool := untranslatable_source "%s"' % (lean, lean), '']
             rep['untranslatable'].append('%s: %s' % (lean, ex))
+    try:
+        e, body = scrape_gate()
+        E += ['/-- the scraping allowance of `find_events` (Nat subtraction is truncated, as `saturating_sub`): `%s` -/' % body.replace('-/', '- /'),
+              'def scrapeAllow (allow : Bool) (limit allowLimit allowSecs since «until» now : Nat) : Bool := %s' % e, '']
+        rep['translated'].append('lib.rs:scrape gate')
+    except Untranslatable as ex:
+        E += ['/-- the scrape gate could not be translated: %s -/' % str(ex).replace('-/', '- /'),
+              'def scrapeAllow (allow : Bool) (limit allowLimit allowSecs since «until» now : Nat) : Bool := untranslatable_source "scrape gate"', '']
+        rep['untranslatable'].append('scrape gate: %s' % ex)
     E += ['end Pocket.Src', '']
     L = list(HEAD)
     try:
